@@ -337,6 +337,10 @@ fn static_claims(obs: &mut Obs) -> R {
             if err.contains("cannot be sent between threads safely") || err.contains("cannot be shared between threads safely") {
                 return fail(format!("C18:static:not-send-sync:{}", cfg), format!("with feature set {} a public value type is not Send + Sync: {}", cfg, relevant.join(" | ")));
             }
+            if err.contains("lifetime may not live long enough") || err.contains("borrowed data escapes") || err.contains("returning this value requires") || err.contains("explicit lifetime required") {
+                let relevant: Vec<&str> = err.lines().filter(|l| l.starts_with("error") || l.contains("-->") ).take(6).collect();
+                return fail(format!("C18:static:registry-reference-not-static:{}", cfg), format!("with feature set {} a registry lookup no longer returns a `&'static TlsCipherSuite` (the reference borrows from its argument, so it cannot be kept or moved to another thread): {}", cfg, relevant.join(" | ")));
+            }
             return fail("harness:sendsync-probe", format!("the Send/Sync probe does not compile with feature set {} for another reason (API change?): {}", cfg, relevant.join(" | ")));
         }
         obs.nontrivial(fnv64(cfg.as_bytes()));
